@@ -119,7 +119,19 @@ fn main() {
         // a panic that escaped every guard is a harness error (or a library panic reached through
         // harness conversion code): inconclusive, never a violation
         if let Err(p) = res {
-            ctx.inconclusive(&format!("harness panic: {} at {}:{}", p.msg, p.file, p.line));
+            if p.in_library() {
+                // raised inside the library's own source by a call the monitor made with arguments it
+                // holds to be valid (history steps, conversions of earlier results): the call did not
+                // return, which every property forbids on valid arguments
+                ctx.evaluations += 1;
+                ctx.outcome("panic");
+                ctx.violation(
+                    &format!("unguarded-call/returns/{}/any", p.sig()),
+                    json!({"observed": p.json(), "expected": "the call returns"}),
+                );
+            } else {
+                ctx.inconclusive(&format!("harness panic: {} at {}:{}", p.msg, p.file, p.line));
+            }
             if ctx.verbose {
                 eprintln!("HARNESS-PANIC case={} {} at {}:{}", idx, p.msg, p.file, p.line);
             }
